@@ -91,7 +91,9 @@ def classify_kind(site):
 def collect(facts, crates, kinds):
     """-> (sites, n_functions): every site of the requested kinds in hand-written code of `crates`"""
     from ..intervals import register_adts
+    from .. import counters
     register_adts(facts)
+    counters.register(facts)
     out = []
     nfn = 0
     for c in crates:
@@ -171,6 +173,9 @@ def run_sites(chk, facts, rid, cfg):
                key=f"site|{key}", file=b.file, line=lines[-1], fn=b.path,
                detail=f"a panic-capable operation that the analysis cannot prove safe for every input was added to code "
                       f"that handles untrusted data, or a guard that made it provable was removed ({whys})")
+    if any(s.get("iv") is not None and s["iv"].used_steps_assumption for s in sites):
+        from ..intervals import A_STEPS
+        chk.assume(A_STEPS)
     chk.stats[f"{rid}:{cfg}:functions"] = nfn
     chk.stats[f"{rid}:{cfg}:sites"] = len(sites)
     chk.stats[f"{rid}:{cfg}:discharged_by_analysis"] = n_ok
